@@ -68,6 +68,7 @@ const CONTEXTS = [
   (j) => `const v = ${j};`,
   (j) => `export default () => ${j};`,
   (j) => `function f(p = ${j}) { return p; }`,
+  (j) => `const fa = (a, p = ${j}) => a + 1;\nconst fb = (q = ${j}) => null;\nconst noop = () => null, idf = () => fa, self = () => this;`,
   (j) => `class K { field = ${j}; m() { return ${j}; } static { K.s = ${j}; } get g() { return ${j}; } }`,
   (j) => `let a = 1; a = 2; a = ${j}; function g() {}`,
   (j) => `for (const i of xs) { out.push(${j}); }\nwhile (c) y = ${j};`,
@@ -120,6 +121,8 @@ export const ODD_FORMS = [
   '<div v-drag_snap-to-grid={h} />', '<input v-model_lazy-trim={x} />', '<div v-track__once={h} />', '<div v-track_2x={h} />', '<div vTrack_2x />', '<A v-track_a-b_c={h} />', '<textarea v-model_1={x} />', '<div v-show_a-b={x} />',
   'const f = async (load) => <A data={await load()}>{children()}</A>;', 'let x; const g = async (p) => (x = <A>{x}</A>, await p);', 'const h = async () => <A>{await mk()}</A>;', 'const o = { async m() { return <A>{f()}</A>; }, *gen() { yield <A>{g()}</A>; }, async *ag() { yield <A>{await f()}</A>; } };',
   '`${renderToString(<div />)}`;', 'const t = <div title={`${items.map((i) => <li>{i}</li>).length} rows`} />;', 'tag`a${<A>{f()}</A>}b`;',
+  'async function f1() { return <A>{g(await h())}</A>; }', 'async function f2(x) { return <A>{x}{class { [await key()]() {} }}</A>; }', 'function* g1() { return <A>{class { static [yield 1] = 1 }}</A>; }', 'async function f3() { return <A><B>{await p}</B></A>; }',
+  '<C {...r} v-models={[[x]]} />', '<C id="a" {...a} {...b} v-models={[[x, "y"]]} />', '<C {...r} v-model={x} {...s} v-models={[[y, "z"]]} />',
   '<A v-foo:a-b={x} />', '<A v-foo:1={x} />', '<div data-a-b-c="1" aria-x />', '<div a.b="1" />'.replace('a.b', 'ab'),
 ];
 
@@ -155,6 +158,7 @@ export function advCases() {
     ['type A = A | A;', 'A'], ['type A = A | A;', '{ p: A }'], ['type A = A & A;', 'A'], ['type Tree = Tree | Tree[] | (Tree & Tree);', 'Tree'], ['type Tree = Tree | Tree[] | (Tree & Tree);', '{ p: Tree }'],
     ['interface A extends A, A { x: 1 }', 'A'], ['interface A extends B, C {} interface B extends A, C {} interface C extends A, B {}', 'A'],
     ['type A = Partial<A> | Required<A>;', 'A'], ['type A = Pick<A, "x"> & Omit<A, "y">;', 'A'], ['type K = K | K; type A = Pick<{ x: 1 }, K>;', 'A'], ['type A = [A, A][0] | [A, A][1];', '{ p: A }'],
+    ['type A = A;', '{ p: A["k"] }'], ['type A = B; type B = A;', 'A["props"]'], ['type A = B; type B = A;', '{ p: A["x"]["y"] }'], ['type A = B; type B = A;', '{ p: A[number] }'],
     // a cycle the starting alias is not part of
     ['type A = B; type B = C; type C = B;', 'A'], ['type A = B; type B = B;', 'A'], ['type A = B; type B = C; type C = D; type D = C;', '{ p: A }'], ['interface A extends B {} interface B extends C {} interface C extends B {}', 'A'],
     ['type A = B; type B = C | string; type C = B;', '{ p: A }'], ['type K = L; type L = M; type M = L; type A = Pick<{ x: 1 }, K>;', 'A'], ['type A = B; type B = C[]; type C = B[number];', '{ p: A[number] }'],
